@@ -145,6 +145,13 @@ def run_check(pid, tier, seed, replay=None, jobs=None):
                     confirmed.append((sc, r, vbad))
                 else:
                     machinery.append("violation in %s not reproduced on the stock simulator (fastsim divergence)" % sc["name"])
+        # scenarios beyond the confirmation budget: reported when the same clause was confirmed on the stock simulator elsewhere
+        ckeys = {k for _, _, vb in confirmed for k, _ in vb}
+        for sc, r, vbad in violations[jobs:]:
+            if any(k in ckeys for k, _ in vbad):
+                confirmed.append((sc, r, vbad))
+            else:
+                machinery.append("violation in %s not confirmed on the stock simulator (confirmation budget exhausted)" % sc["name"])
     else:
         confirmed = violations
     # report
